@@ -171,6 +171,11 @@ def run(ctx: Ctx):
                 __issue__=lambda ctx, lg, issue: ((f'C07:extract:{lg}:{issue[:60]}', f'{lg}: {issue}', dict(logic=lg, issue=issue), True)
                                                   if ('not a function of the value set' in issue or 'FATAL' in issue or 'fold probe' in issue) else None))
     logicobl.decide_rows(ctx, cats, THMS)
+    off7 = [(lg, k, det) for lg, k, det in logicobl.cache_off_diff() if k in ('tables', 'qf', 'mf', 'missing')]
+    for lg, k, det in off7:
+        ctx.fail(f'C07:cache-off:{lg}:{k}', f'{lg}: with ITEM_CACHE_SIZE=0 the extracted {k} differ from the default ones: {det[:400]}',
+                 dict(logic=lg, field=k, env=dict(ITEM_CACHE_SIZE='0'), detail=det), found_input=True)
+    ctx.add_cov(cache_off_differences=len(off7))
     nrows = base_rows(ctx, data)
     npub = published_tables(ctx, data)
     # coverage: how many table rows were compared (measured from the regenerated data)
